@@ -125,7 +125,7 @@ Definition smatrix (K C : nat) (sq : list nat) (wrap : nat) : list (list nat) :=
 (* Index<usize> for StripedSequence: col = index / rows, row = index % rows with
    rows = self.data.rows() - self.wrap (cannot underflow: the wrap rows are part of
    the matrix).  Quotient and remainder come from one call of Nat.divmod, which is
-   how Nat.div and Nat.modulo are defined (seq_index_divmod in ConcreteProofs.v). *)
+   how Nat.div and Nat.modulo are defined (seq_index_spec in ConcreteProofs.v). *)
 Definition seq_index (sm : list (list nat)) (wrap idx : nat) : res nat :=
   match length sm - wrap with
   | O => Panic 20
@@ -186,7 +186,7 @@ Definition drow (C : nat) (sm : list (list nat)) (ddata : list (list nat)) (r : 
   rmapM (fun c => dcell_from sm ddata r c 0) (seq 0 C).
 
 (* [dtab] caches [drow r] for the sequence rows (a pure function of r): entry r is
-   [drow .. r]; rows outside the table are computed directly (tab_get_eq in
+   [drow .. r]; rows outside the table are computed directly (tab_get_map in
    ConcreteProofs.v: the cache never changes a result) *)
 Definition tab_get {A} (f : nat -> A) (tab : list A) (i : nat) : A :=
   match nth_error tab i with Some x => x | None => f i end.
@@ -276,7 +276,7 @@ Definition ce_take_max (v : cenv) (am : arm) (thr : F32.t) (B k : nat)
 (* brute force: score_position at every valid position *)
 Definition ce_scores (v : cenv) : list (res F32.t) :=
   map (ce_score_position v) (seq 0 (ce_Lm v)).
-(* (= ce_ptab v, see ce_scores_tab in ConcreteProofs.v; the driver reads the cache) *)
+(* (= the list of [cscore v i], see env_scores in ConcreteProofs.v; the driver reads the cache ce_ptab) *)
 
 (* u8 score of one position (DiscreteMatrix::score_position), for diagnostics *)
 Definition ce_dscore (v : cenv) (pos : nat) : res nat :=
